@@ -10,13 +10,16 @@ def parseEnd (s : String) : Option End :=
   if s = "ok" then some .ok else if s = "err" then some .err else if s = "panic" then some .panic
   else if s = "fin" then some .fin else if s = "cancel" then some .cancel else none
 
+/-- `<emits>:<end>` followed by any of `:bad`, `:brk`, `:cap` -/
 def parseTurn (s : String) : Option Turn :=
   match s.splitOn ":" with
-  | [e, d] => match e.toNat?, parseEnd d with
-    | some e, some d => some { emits := e, «end» := d, bad := false }
-    | _, _ => none
-  | [e, d, b] => match e.toNat?, parseEnd d with
-    | some e, some d => if b = "bad" then some { emits := e, «end» := d, bad := true } else none
+  | e :: d :: flags =>
+    match e.toNat?, parseEnd d with
+    | some e, some d =>
+      if flags.all (fun f => f = "bad" || f = "brk" || f = "cap") then
+        some { emits := e, «end» := d, bad := flags.contains "bad", brk := flags.contains "brk",
+               capped := flags.contains "cap" }
+      else none
     | _, _ => none
   | _ => none
 
@@ -30,7 +33,12 @@ def parseMethod (s : String) : Option UMethod :=
   if s = "echo" then some .echo else if s = "fail" then some .fail else if s = "boom" then some .boom
   else if s = "void" then some .void else if s = "badparams" then some .badparams else none
 
-def knownTransport (s : String) : Bool := s = "pipe" || s = "http" || s = "httpcap"
+def knownTransport (s : String) : Bool :=
+  ["pipe", "http", "httpcap", "pipex", "httpx", "httpxacc", "httpxpre", "httpxpost"].contains s
+
+def parseExtMode (s : String) : Option ExtMode :=
+  if s = "inline" then some .inline else if s = "uploaded" then some .uploaded
+  else if s = "pre" then some .refusedPre else if s = "post" then some .refusedPost else none
 
 def report (c : Call) : String :=
   match run [] (callEvents c) with
@@ -43,13 +51,19 @@ def step (_ : Unit) (ws : List String) : Unit × String :=
     match knownTransport tr, parseMethod m, shm.toNat?, kv "r=" r with
     | true, some m, some _, some r => ((), report (.unary m { r := r, e := 0, c := 0 }))
     | _, _, _, _ => ((), "bad-op")
+  | ["unaryx", tr, mode, r, w] =>
+    match knownTransport tr, parseExtMode mode, kv "r=" r, kv "w=" w with
+    | true, some m, some r, some w => ((), report (.unaryExt m { r := r, e := 0, c := 0, w := w }))
+    | _, _, _, _ => ((), "bad-op")
   | ["stream", tr, k, w, shm, e, c, ts] =>
     match knownTransport tr, parseWire w, shm.toNat?, kv "e=" e, kv "c=" c, parseTurns ts with
     | true, some w, some _, some e, some c, some ts =>
       -- over HTTP the server keeps calling Produce until the producer finishes (the scripted
       -- handler finishes once its script is used up); over a pipe the client's ticks bound it
-      let ts := if k = "prod" && tr != "pipe" then ts ++ [{ emits := 0, «end» := .fin, bad := false }] else ts
-      if k = "prod" then ((), report (.stream .prod w { r := 0, e := e, c := c } ts))
+      let ts := if (k = "prod" || k = "prodh") && !(tr = "pipe" || tr = "pipex")
+        then ts ++ [{ emits := 0, «end» := .fin, bad := false }] else ts
+      -- prodh: a producer with a stream header (serialized and released before the first turn)
+      if k = "prod" || k = "prodh" then ((), report (.stream .prod w { r := 0, e := e, c := c } ts))
       else if k = "xch" then ((), report (.stream .xch w { r := 0, e := e, c := c } ts))
       else ((), "bad-op")
     | _, _, _, _, _, _ => ((), "bad-op")
